@@ -1,7 +1,7 @@
 """C08 - Identity code and surveillance / all-call reply fields."""
 import pyModeS as pms
 from ref import frames, gillham
-from vlib import dual
+from vlib import dual, variants
 from vlib.core import Leg, call
 
 PROPERTY = "C08"
@@ -81,11 +81,15 @@ def chk_idcar(case, note):
             me = (28 << 51) | ((st & 0x3F) << 45) | (code << 32) | low
             msg = frames.tohex(frames.df17(addr, me, ca=head & 7, df=17 + (head >> 3 & 1)), 112, hc)
             fns = [("adsb.emergency_squawk", pms.adsb.emergency_squawk)]
+        if (head ^ code) & 1:
+            variants.prelude(pms, msg)  # address / parity of the same string looked at first, as a receiver does
         for nm, fn in fns:
             r = call(fn, msg)
             n += 1
             if r != ("ok", exp):
                 return "%s(%s) -> %r, transmitted identity %s" % (nm, msg, r, exp)
+            if call(fn, msg) != r:
+                return "%s(%s) gives %r and then %r when called twice" % (nm, msg, r, call(fn, msg))
     note.evals = n
     note.cls(car)
     note.nt(True, key=[code, car])
